@@ -439,6 +439,9 @@ type OpenFgaDslSyntaxErrorMetadata struct {
 }
 
 type OpenFgaDslSyntaxError struct {
+	// File is the name of the module file the error was found in (set when module files are merged).
+	File string
+
 	line, column int
 	msg          string
 	metadata     *OpenFgaDslSyntaxErrorMetadata
